@@ -695,6 +695,17 @@ func (eng *Engine) verify(c *Contract, prop string) (rep *FuncReport, err error)
 				ex.safetyKinds = map[string]bool{}
 			case "boundedmake":
 				ex.boundMake = true
+				ex.safetyKinds["make-bounded"] = true
+			default:
+				if strings.HasPrefix(strings.TrimSpace(cl.Text), "only ") {
+					ex.safetyKinds = map[string]bool{}
+					for _, k := range strings.Fields(strings.TrimPrefix(strings.TrimSpace(cl.Text), "only ")) {
+						ex.safetyKinds[k] = true
+						if k == "make-bounded" {
+							ex.boundMake = true
+						}
+					}
+				}
 			}
 		}
 	}
@@ -859,6 +870,20 @@ func (eng *Engine) verify(c *Contract, prop string) (rep *FuncReport, err error)
 		ex.frameCheck(frameRec, bodyPos)
 	} else {
 		ex.assumption("frame (modifies clause) of " + c.Func + " is not checked")
+	}
+	// `assert finding <id> <substring>`: obligations whose name contains the substring are
+	// the known finding <id> (expected to fail until the finding is fixed)
+	for _, cl := range c.Clauses {
+		if cl.Kind == "assert" && strings.HasPrefix(cl.Text, "finding ") {
+			f := strings.SplitN(strings.TrimPrefix(cl.Text, "finding "), " ", 2)
+			if len(f) == 2 {
+				for _, ob := range ex.obs {
+					if strings.Contains(ob.Name, strings.TrimSpace(f[1])) && !ob.ExpectSat {
+						ob.Finding = f[0]
+					}
+				}
+			}
+		}
 	}
 	if len(ex.specErrs) > 0 {
 		// the contract no longer type-checks against the function (a variable it names
